@@ -291,7 +291,7 @@ def node_depth_limit_obligation(res, fx, rule):
            function=f.q, key=key, message=msg)
 
 
-def rec_rule(res, fx, cg, entries, reach_all, rule, anchor_files=None):
+def rec_rule(res, fx, cg, entries, reach_all, rule, anchor_files=None, side_nesting=False):
     res.rule(rule, 'every recursive call-graph component (logging and destructor hubs cut) reachable from the entry set either carries a depth guard on its recursive calls '
                    '(NestCount test + NestCountGuard, or a decremented depth parameter that is tested), or belongs to a frozen family that is bounded by a structure whose depth is itself limited')
     reach = reach_cut(cg, fx, entries)
@@ -299,6 +299,7 @@ def rec_rule(res, fx, cg, entries, reach_all, rule, anchor_files=None):
     seen = set()
     n_info = 0
     used_node_depth = False
+    used_msg_nesting = False
     for comp in sorted(sccs, key=lambda c: sorted(c)[0]):
         comp = set(comp)
         names = tuple(sorted(set(fx.funcs[x].q if x in fx.funcs else x for x in comp)))
@@ -343,6 +344,8 @@ def rec_rule(res, fx, cg, entries, reach_all, rule, anchor_files=None):
             cls, reason, rx = fam
             if cls == 'node-depth':
                 used_node_depth = True
+            if cls == 'message-nesting' and in_anchor:
+                used_msg_nesting = True
             if in_anchor:
                 res.ob(rule, where, 'recursion {%s} is bounded' % label, True, how='frozen family [%s]: %s' % (cls, reason), function=names[0], nontrivial=False)
             else:
@@ -362,7 +365,39 @@ def rec_rule(res, fx, cg, entries, reach_all, rule, anchor_files=None):
                detail={'members': list(names), 'entry_path': path, 'members_outside_any_frozen_family': [n for n in names if family_of((n,)) is None]})
     if used_node_depth:
         node_depth_limit_obligation(res, fx, rule)
+    if used_msg_nesting and side_nesting:
+        message_nesting_limit_obligation(res, fx, cg, rule)
     res.extra.setdefault('recursion', {})[rule] = {'components': len(seen), 'outside_anchor_or_listed_elsewhere': n_info}
+
+
+def message_nesting_limit_obligation(res, fx, cg, rule):
+    """MESSAGE-NESTING-LIMIT: the families classified 'message-nesting' are bounded only if the depth of every Message that reaches them is bounded,
+    i.e. if the parser that builds received Messages limits nesting: the recursive component of Message::Unflatten must be depth-guarded."""
+    ents = [f.id for f in fx.fn('muscle::Message::Unflatten', full=False)]
+    reach = reach_cut(cg, fx, ents)
+    comp = None
+    for c in sccs_cut(cg, fx, reach.keys()):
+        if set(c) & set(ents):
+            comp = set(c)
+    guarded = False
+    how = None
+    if comp is None:
+        guarded = True
+        how = 'Message::Unflatten is not recursive'
+    else:
+        for fid in sorted(comp):
+            f = fx.funcs.get(fid)
+            if f is None or not f.full:
+                continue
+            sites = recursive_sites(fx, cg, f, comp)
+            if sites and all(guard_of(f, s) for s in sites):
+                guarded = True
+                how = 'recursive calls in %s are depth-guarded' % f.q
+    f0 = fx.funcs.get(ents[0])
+    res.ob(rule, f0.where() if f0 else 'message/Message.cpp', 'MESSAGE-NESTING-LIMIT: received Messages have bounded nesting depth (the recursion of Message::Unflatten is depth-guarded)', guarded, how=how,
+           function='muscle::Message::Unflatten', key='%s|muscle::Message::Unflatten|nesting-limit' % rule,
+           message='recursion over nested Messages (flatten, size, checksum, release, archived filters) is bounded only by the nesting depth of the Message, and Message::Unflatten accepts any depth: '
+                   'a client that sends a Message nested deeply enough overflows the server\'s stack')
 
 
 def pick_anchor(names):
